@@ -234,6 +234,7 @@ namespace gtry {
 		m_width = BitWidth{ width };
 		m_bitAlias.clear();
 		m_msbAlias = std::nullopt; // the msb moved
+		m_dynamicBitAlias.clear(); // their index range was fixed for the old width
 	}
 
 	void gtry::BaseBitVector::resetNode()
@@ -452,6 +453,8 @@ namespace gtry {
 
 			m_width = in.width();
 			m_msbAlias = std::nullopt; // the msb moved
+			m_dynamicBitAlias.clear(); // their index range was fixed for the old width
+			m_bitAlias.clear(); // aliasVec() refills without clearing
 		}
 
 		m_node->connectInput(in);
